@@ -136,7 +136,7 @@ _p("C01", "other",
    "opacity range, stroke reset, nonzero marking, walk/printing; by running the real topicosvg / _simplify / _run symbolically with recorders for the callees "
    "(pipeline.trace, simplify.trace, cli.trace): pipeline order, binding of ndigits / allow_text / drop_unsupported incl. the CLI, gate raises on violations, root "
    "cleanup, one master defs of gradients only, dissolved groups, no stroke / transform / clip-path left on written paths - for the tree shapes the contracts "
-   "enumerate, over a model of lxml. For arbitrary trees this is NOT decided deductively: an independent grammar oracle on generated documents x options is "
+   "enumerate, over a model of lxml. The element-path patterns of the final gate are decided against the grammar for all strings (gate.allowlist, automata back end: nothing outside the grammar's element paths is accepted). For arbitrary trees the conversion itself is NOT decided deductively: an independent grammar oracle on generated documents x options is "
    "the bounded part.",
    [LXML, PATHOPS, BRIDGE, CPY])
 _p("C02", "other",
